@@ -18,6 +18,8 @@ SERVICES = [(0x1111, 1, 1, 1), (0x1111, 2, 1, 1), (0x2222, 1, 1, 7)]
 FILTERS = [C.Service(0x1111), C.Service(0x1111, 1), C.Service(0x1111, 0xFFFF, 1, 1), C.Service(0x2222), C.Service(0x2222, 1, 1, 7),
            C.Service(0x3333)]
 TTLS = [1, 2, 3, 0xFFFFFF]
+# filters reserved for auto-subscribe listeners (equal to none of FILTERS)
+AUTO_FILTERS = [C.Service(0x1111, 0xFFFF, 1), C.Service(0x2222, 0xFFFF, 1)]
 # eventgroups a client requests: IPv4 / IPv6 local endpoints, UDP / TCP - two pairs share one local address and port and
 # differ in the transport protocol only (a UDP and a TCP socket bound to the same port)
 CLIENT_EGS = [C.Eventgroup(0x1111, 1, 1, 5, ("10.0.0.9", 4000), H.L4Protocols.UDP),
@@ -91,6 +93,7 @@ class Scenario:
         self.ttls = TTLS
         self.sub_counts = [1, 1, 2]
         self.fav_subs = None
+        self.auto_eg = {}
         self.shared_ep = False
         self.lost = False
 
@@ -235,16 +238,22 @@ class Scenario:
         fi = rng.randrange(len(FILTERS))
         if rng.random() < 0.25:
             # an AutoSubscribeServiceListener under a filter that may be wider than its eventgroup's service: offers the
-            # eventgroup does not apply to must be skipped (`for_service` -> None; found uncovered by the mutation sweep)
-            egi = rng.randrange(len(CLIENT_EGS))
-            key = (fi, "auto", egi)
-            f = FILTERS[fi]
+            # eventgroup does not apply to must be skipped (`for_service` -> None; found uncovered by the mutation sweep).
+            # The listeners of one filter are a Python set: the order in which they are called is unspecified, so an auto
+            # listener gets a filter of its own (never shared with another listener) - with two listeners in one set the
+            # model could not know which acts first (a false divergence of the first version of this generator).
+            afi = rng.randrange(len(AUTO_FILTERS))
+            key = ("auto", afi)
+            f = AUTO_FILTERS[afi]
             if key in self.registered:
                 self.registered.discard(key)
-                self.rec.inp(impl.loop.ticks, ("unwatchAuto", fi, egi))
+                egi = self.auto_eg[afi]
+                self.rec.inp(impl.loop.ticks, ("unwatchAuto", afi, egi))
                 return f"in unwatch {sdio.svc_tok(f)} auto {sdio.eg_tok(CLIENT_EGS[egi])}"
+            egi = rng.randrange(len(CLIENT_EGS))
+            self.auto_eg[afi] = egi
             self.registered.add(key)
-            self.rec.inp(impl.loop.ticks, ("watchAuto", fi, egi))
+            self.rec.inp(impl.loop.ticks, ("watchAuto", afi, egi))
             return f"in watch {sdio.svc_tok(f)} auto {sdio.eg_tok(CLIENT_EGS[egi])}"
         key = (fi, lid)
         f = FILTERS[fi]
